@@ -156,6 +156,13 @@ class HeapCell(Dom):
     """a cell / range node of the model (an element of the uninterpreted sort Node)"""
 
 
+class HeapSet(Dom):
+    """A set of cell addresses held in a local / closure variable of the code (heap mode)."""
+
+    def __init__(self, name):
+        self.name = name
+
+
 class OpaqueV(Dom):
     """an Excel value of unknown type (uninterpreted sort V; None included unless excluded)"""
 
